@@ -57,7 +57,21 @@ def interaction_run(fn, nb, seedcomp=None, bead_arg=None, decide=None, opaque=()
             if all(rvc.nf_zero(v.g(i).v - c.g(i).v) for i in range(3)):
                 return opaque_vec(v, 'n%d' % (idx + 1))
         return None
-    cb = {'getDist': getDist, 'opaque_value': opaque_value}
+    def getBead(top, i):
+        """contract of Topology::getBead(i)->getPos(): the raw position r_i.  It is related to the connection vectors only up to a lattice vector
+        (u_ij = r_j - r_i + L), so code that mixes raw positions with getDist cannot satisfy the gradient contract for every L: r_i are independent symbols"""
+        i = rvc._i(i)
+        class BeadM:
+            def call(s_, name, args):
+                if name in ('getPos', 'Pos'):
+                    m = Mx(3, 1)
+                    for k in range(3):
+                        t = 1 if (seedcomp is not None and seedcomp == (i, k)) else 0
+                        m.p(k, 0, D(sp.Symbol('pos%d%s' % (i, COMP[k]), real=True), t))
+                    return m
+                raise rvc.Unsupported('Bead::' + name)
+        return BeadM()
+    cb = {'getDist': getDist, 'opaque_value': opaque_value, 'getBead': getBead}
     if decide:
         cb['decide'] = decide
     this = {'beads_': list(range(nb))}
